@@ -501,8 +501,11 @@ Definition corr_ok (c : case) : bool :=
              match real_marking idx sz mn md kn kd gs with
              | None => is_nil lazy && (postings =? 0)
              | Some names =>
-                 list_eqb str_eqb (ssort names) lazy
-                 && (postings =? Z.of_nat (length (eager_candidates idx gs names)))
+                 (* when the fetched postings intersect to nothing, ExpandedPostings returns the
+                    empty lazy postings without matchers: the marking is not observable then *)
+                 let cand := Z.of_nat (length (eager_candidates idx gs names)) in
+                 (postings =? cand)
+                 && (if cand =? 0 then is_nil lazy else list_eqb str_eqb (ssort names) lazy)
              end
          end
   end.
